@@ -12,6 +12,8 @@ CHECKS = {
     "reset.go": "C11", "marshal_text.go": "C11", "marshal.go": "C11", "unmarshal.go": "C11", "grpc_codec.go": "C11",
     "lazyproto/decode.go": "C10 C13 C14 C15", "lazyproto/decode_result.go": "C10 C13 C14 C15", "lazyproto/fielddata.go": "C10 C13 C14",
     "lazyproto/def.go": "C13 C15", "cmd/protodump/main.go": "C20", "prototest/parse_annotated_hex.go": "C20",
+    "cmd/protoc-gen-fastmarshal/funcs.go": "C16 C04 C05 C06 C17", "cmd/protoc-gen-fastmarshal/run.go": "C16 C04 C05 C06 C17",
+    "cmd/protoc-gen-fastmarshal/generator.go": "C16 C04 C05 C06 C17", "cmd/protoc-gen-fastmarshal/render.go": "C16 C04 C05 C06 C17",
 }
 
 def run(cmd, cwd, timeout=300, env=ENV):
